@@ -321,9 +321,26 @@ class Interp:
             return self.cur is not None
         return self.cur is not None and self.ran
 
+    # the Breguet fuel burn ~ exp(c CD/CL) and everything computed from it (weight, L = W residual, cg, moments about it)
+    # is singular at CL = 0: when the fresh problem's CL is zero to solver accuracy, +1e-21 and -1e-21 (both "converged")
+    # give inf and -1607 kg.  Such a point has no defined value of these functionals; the other outputs are compared.
+    SINGULAR = ("fuelburn", "L_equals_W", "CM", "M", "cg")
+
+    def _singular(self, ref):
+        if self.cfg["topo"] != "aerostruct":
+            return False
+        cl = np.asarray(ref.get("AS_point_0.CL", [1.0]), float)
+        s = bool(np.all(np.isfinite(cl)) and abs(float(cl.ravel()[0])) < 1e-6)
+        if s and "zero_lift_point" not in self.labels:
+            self.labels.append("zero_lift_point")
+        return s
+
     def _cmp_outputs(self, out):
         ref = self.fresh()[0]
+        sing = self._singular(ref)
         for k in self.outs:
+            if sing and k.split(".")[-1] in self.SINGULAR:
+                continue
             a, b = np.asarray(self.prob.get_val(k), float), np.asarray(ref[k], float)
             fin = np.isfinite(b)
             if not np.all(fin):
@@ -426,8 +443,11 @@ class Interp:
                     return None, None
                 return a[fin], b[fin]
 
+            sing = self._singular(outs_ref)
             if not polluted:
                 for k, v in J.items():
+                    if sing and k[0].split(".")[-1] in self.SINGULAR:
+                        continue
                     v, Jref_k = _fin(v, Jref[k], "totals")
                     if v is None:
                         continue
@@ -445,6 +465,8 @@ class Interp:
             for k, v in sj.items():
                 if k in sjref and sjref[k].shape == v.shape and k not in const:
                     comp = k[0].split(".")[-2]
+                    if sing and (k[0].split(".")[-1] in self.SINGULAR or k[1].split(".")[-1] in self.SINGULAR + ("total_weight",)):
+                        continue
                     v, r = _fin(v, sjref[k], "partials")
                     if v is None:
                         continue
